@@ -2112,12 +2112,16 @@ def disk_io_counters(perdisk=False, nowrap=True):
     executed first otherwise this function won't find any disk.
     """
     kwargs = dict(perdisk=perdisk) if LINUX else {}
-    rawdict = _psplatform.disk_io_counters(**kwargs)
     if nowrap:
         # Also when there are no disks, so that the disks which went
         # away are forgotten instead of being mistaken for counters
         # which wrapped when they come back.
-        rawdict = _wrap_numbers(rawdict, 'psutil.disk_io_counters')
+        rawdict = _wrap_numbers(
+            lambda: _psplatform.disk_io_counters(**kwargs),
+            'psutil.disk_io_counters',
+        )
+    else:
+        rawdict = _psplatform.disk_io_counters(**kwargs)
     if not rawdict:
         return {} if perdisk else None
     nt = getattr(_psplatform, "sdiskio", _common.sdiskio)
@@ -2166,12 +2170,15 @@ def net_io_counters(pernic=False, nowrap=True):
     "net_io_counters.cache_clear()" can be used to invalidate the
     cache.
     """
-    rawdict = _psplatform.net_io_counters()
     if nowrap:
         # Also when there are no NICs, so that the NICs which went away
         # are forgotten instead of being mistaken for counters which
         # wrapped when they come back.
-        rawdict = _wrap_numbers(rawdict, 'psutil.net_io_counters')
+        rawdict = _wrap_numbers(
+            lambda: _psplatform.net_io_counters(), 'psutil.net_io_counters'
+        )
+    else:
+        rawdict = _psplatform.net_io_counters()
     if not rawdict:
         return {} if pernic else None
     if pernic:
